@@ -154,8 +154,12 @@ def finish(prop, tier, res, t0, explanation, assumptions, analysed,
                 prop, tag, i.loc, i.rule, i.inst, i.detail))
     # per-instance log (what was analysed)
     for i in res.instances:
+        # (the word VIOLATION is reserved for the protocol line)
+        label = i.verdict
+        if i.verdict == VIOLATION:
+            label = 'KNOWN' if i.key in known_keys else 'BROKEN'
         print('{:9s} {} {} [{}] {}'.format(
-            i.verdict, i.rule, i.where, i.inst,
+            label, i.rule, i.where, i.inst,
             (i.loc + ' ' if i.loc else '') + i.detail)[:400])
     for ln in lines:
         print(ln)
